@@ -105,8 +105,10 @@ def main(argv=None):
     jobs += [(prop, n, tier, seed) for n in bounded_names]
     shared_ids = {}
     for (m2, gname, ids) in getattr(mod, "SHARED", []):
-        jobs.append((m2, gname, tier, seed))
-        shared_ids[(m2, gname)] = ids
+        if (m2, gname) not in shared_ids:
+            jobs.append((m2, gname, tier, seed))
+        shared_ids.setdefault((m2, gname), [])
+        shared_ids[(m2, gname)] += [i for i in ids if i not in shared_ids[(m2, gname)]]
     xgroups = list(getattr(mod, "XCHECK", []))
     xprocs = []
     for g in xgroups:          # encoding cross-check of the NumPy model against real NumPy (DESIGN §1.6), in parallel
@@ -150,6 +152,14 @@ def main(argv=None):
                     clauses.append(c)
             else:
                 clauses.append(c)
+    # every obligation a property borrows from another module must actually have been generated (no silent drop)
+    for (m2, gname), ids in shared_ids.items():
+        produced = {c["obligation"] for r in results if (r["module"], r["group"]) == (m2, gname) for c in r["clauses"]}
+        errored = any(c["status"] == "error" for r in results if (r["module"], r["group"]) == (m2, gname) for c in r["clauses"])
+        for i in ids:
+            if i not in produced and not errored:
+                clauses.append({"obligation": i, "status": "undecided", "backend": "", "group": gname, "shared_from": m2,
+                                "detail": "obligation %s is listed as shared from %s.%s but that group did not generate it" % (i, m2, gname)})
     known = load_known()
     violations, undecided, kfound, errors = [], [], [], []
     discharged = 0
